@@ -46,8 +46,9 @@ def main():
         })
     manifest = {
         'version': 1,
-        'setup_cmd': '/venv/bin/python -c "import hypothesis" 2>/dev/null || /venv/bin/pip install --no-index '
-                     '--find-links /opt/veriftools/wheels hypothesis',
+        'setup_cmd': '(/venv/bin/python -c "import hypothesis" 2>/dev/null || /venv/bin/pip install --no-index '
+                     '--find-links /opt/veriftools/wheels hypothesis) && (/venv/bin/pip install -q --no-index '
+                     '--find-links /opt/veriftools/wheels --target /verif/.deps atheris >/dev/null 2>&1 || true)',
         'hooks': {
             'guard': 'ZOPE_TESTRUNNER_VERIF',
             'enable': 'no source hooks are needed: checks import /repo/src directly (ztv/boot.py) and observe '
@@ -61,6 +62,7 @@ def main():
             'name': 'ztv', 'path': 'ztv/',
             'serves_properties': [c['property_id'] for c in checks],
             'kind_free_text': 'Hypothesis-driven generated test worlds / inputs, exhaustive small-scope enumeration, '
+                              'harness-owned schedules (barrier files), atheris campaigns (C20 thorough; optional), '
                               'explicit oracles over a pid-tagged event trace; 16 worker processes; shrunk failures '
                               'become replay files',
         }],
